@@ -214,6 +214,29 @@ def ucastCand (w : World) (dst : Addr) (exact : Bool) (r : Nat) : Bool :=
 def enqueue (socks : Nat → Option MSock) (arrived : List Nat) (d : Dgram) : Nat → Option MSock :=
   fun r => (socks r).map fun m => if arrived.contains r then { m with rxq := m.rxq ++ [d] } else m
 
+/-- The sockets a multicast datagram of `tx` is looped back to. -/
+def mcArrived (w : World) (tx : MSock) (dst : Addr) (srcIp : Ip) : List Nat :=
+  (List.range maxSock).filter (kDeliver w (viaMcastIf w.host tx.kern.name.ip tx.kern.mcIf && tx.kern.loop) dst srcIp)
+
+/-- The socket a unicast datagram is queued to: an exactly bound socket wins over a wildcard one; among equals
+(SO_REUSEPORT) the kernel hashes — `pick` is its choice. -/
+def ucArrived (w : World) (dst : Addr) (pick : Nat) : List Nat :=
+  match (List.range maxSock).filter (ucastCand w dst true) with
+  | r :: rs => if (r :: rs).contains pick then [pick] else [r]
+  | [] => match (List.range maxSock).filter (ucastCand w dst false) with
+    | r :: rs => if (r :: rs).contains pick then [pick] else [r]
+    | [] => []
+
+/-- One `sendto` of socket `s` (= `tx`) to `dsta`. -/
+def sendTo (w : World) (s : Nat) (tx : MSock) (dsta : Addr) (data : List UInt8) (pick : Nat) : World × List Ev :=
+  let src : Addr := { ip := srcIp w.host tx.kern dsta, port := tx.kern.name.port }
+  let err := sendErr tx.kern dsta data
+  if err != .nil then (w, [.sent s dsta data err 0 src []])
+  else
+    let d : Dgram := { src := src, dst := dsta, data := data }
+    let arrived := if isMulticast dsta.ip then mcArrived w tx dsta src.ip else ucArrived w dsta pick
+    ({ w with socks := enqueue w.socks arrived d }, [.sent s dsta data .nil data.length src arrived])
+
 /-! ### Receiving -/
 
 /-- One `recvfrom` of socket `s` into the buffer `(cur, len)`; `none` = would block. -/
@@ -372,24 +395,7 @@ def step (w : World) : Op → World × List Ev
           | .sock j => (live w j).map fun t => { ip := if t.kern.name.ip == 0 then w.host.loIp else t.kern.name.ip, port := t.kern.name.port }
         match dsta with
         | none => (w, [.skipped])
-        | some dsta =>
-          let src : Addr := { ip := srcIp w.host tx.kern dsta, port := tx.kern.name.port }
-          let err := sendErr tx.kern dsta data
-          if err != .nil then (w, [.sent s dsta data err 0 src []])
-          else
-            let d : Dgram := { src := src, dst := dsta, data := data }
-            let arrived : List Nat :=
-              if isMulticast dsta.ip then
-                let via := viaMcastIf w.host tx.kern.name.ip tx.kern.mcIf && tx.kern.loop
-                (List.range maxSock).filter (kDeliver w via dsta src.ip)
-              else
-                -- an exactly bound socket wins over a wildcard one; among equals (SO_REUSEPORT) the kernel hashes
-                match (List.range maxSock).filter (ucastCand w dsta true) with
-                | r :: rs => if (r :: rs).contains pick then [pick] else [r]
-                | [] => match (List.range maxSock).filter (ucastCand w dsta false) with
-                  | r :: rs => if (r :: rs).contains pick then [pick] else [r]
-                  | [] => []
-            ({ w with socks := enqueue w.socks arrived d }, [.sent s dsta data .nil data.length src arrived])
+        | some dsta => sendTo w s tx dsta data pick
   | .read s len =>
       match live w s with
       | none => (w, [.skipped])
